@@ -109,7 +109,14 @@ def texts(draw, enc, max_lines=6, nonempty=True):
         k = draw(st.sampled_from(LONG_SIZES))
         i = draw(st.sampled_from([0, 0, n - 1, draw(st.integers(0, n - 1))]))
         idxs = [j for j, p_ in enumerate(parts) if p_ not in TERMS]
-        parts[idxs[min(i, len(idxs) - 1)]] = 'L' * k
+        ch = draw(st.sampled_from(['L', 'L', '中', 'é', 'Ж']))
+
+        if not _encodable_in(ch, enc):
+            ch = 'L'
+        elif ch != 'L':
+            k = min(k, 200)
+
+        parts[idxs[min(i, len(idxs) - 1)]] = ch * k
 
     text = ''.join(parts)
 
